@@ -52,7 +52,19 @@ def foreign(rng, ft, k=None):
         files.append((None, b"MIDDLE  BIN", 0x20, [run + 2], bytes(rng.randrange(256) for _ in range(bpc - 9))))
         fill[run + 4] = bad
     kw.update(files=files, fatfill=fill, hi_bits=hi or None, label="FOREIGNVOL")
+    if ft == 12:
+        fill[n + 1] = bad          # the LAST cluster carries a bad mark: on tables with an odd number of entries it is the unpaired last entry (C16-m9)
     img, info = fatspec.build(ft, **kw)
+    if ft == 12:
+        # bytes of the FAT sectors behind the last complete 12-bit entry belong to no entry: other formatters leave anything there
+        b = bytearray(img)
+        fb = info["fatsec"] * 512
+        used_b = (info["nent"] * 3 + 1) // 2
+        rs = kw.get("rsvd") or 1
+        for q in range(kw["nf"]):
+            for j in range(used_b, fb):
+                b[(rs + q * info["fatsec"]) * 512 + j] = 0xA5
+        img = bytes(b)
     # the reserved byte that holds the dirty flag in bit 0: its OTHER bits belong to other systems (NT: 0x02 = surface scan) and are part
     # of the bytes that must come back unchanged
     r1 = rng.choice([0, 0x02, 0x80, 0x82, 0x7E])
@@ -168,6 +180,10 @@ def run(ctx):
                         dq = next(j for j in range(len(cp2[0])) if cp2[q][j] != cp2[0][j])
                         problems.append(f"FAT copy {q} differs from the first one at byte {dq} after the history")
                         break
+            if v.ft == 12:
+                used_b = (v.fat_capacity() * 3 + 1) // 2
+                if cp2[0][used_b:] != cp0[0][used_b:]:
+                    problems.append(f"bytes of the FAT sectors behind the last complete entry changed: {cp0[0][used_b:].hex()} -> {cp2[0][used_b:].hex()}")
             t1, _ = v.tree()
             t2, _ = v2.tree()
             for p, t in t1.items():
